@@ -35,7 +35,8 @@ func EqualMap[M ~map[K]V, K comparable, V any](map1 M, map2 M, handler Compariso
 		return false
 	}
 	for k, v1 := range map1 {
-		if !handler(v1, map2[k]) {
+		v2, exist := map2[k]
+		if !exist || !handler(v1, v2) {
 			return false
 		}
 	}
@@ -49,7 +50,8 @@ func EqualComparableMap[M ~map[K]V, K comparable, V comparable](map1 M, map2 M) 
 		return false
 	}
 	for k, v1 := range map1 {
-		if v1 != map2[k] {
+		v2, exist := map2[k]
+		if !exist || v1 != v2 {
 			return false
 		}
 	}
